@@ -22,13 +22,15 @@ runs with a tick of 365 days (drift 40, future drift 80 ticks) so that real cale
 the window whatever the wall clock says; the driver checks that clock against the interval the
 specification assumed.
 
-The pinned code deviates from the property in four places (Finding1: a last unterminated over-size
-line of k*max bytes fails the whole request; Finding2: insane-json accepts lexically invalid JSON;
-Finding3: a time more than ~292 years ahead is kept - documentDelayed negates a saturated
-time.Duration; Finding4: parseESTime lets time.Date normalise a day beyond the month's end, so
-"2025-02-30 ..." becomes March 2).  The spec keeps the required behaviour as the reference and models
-each deviation as a guarded branch recorded in `dev`; a disagreement on a case whose `dev` is not empty
-gets the finding's signature."""
+The code deviated / deviates from the property in four places (Finding1: a last unterminated over-size
+line of k*max bytes fails the whole request - repaired in /repo 8c485a0; Finding2: insane-json accepts
+lexically invalid JSON - listed; Finding3: a time more than ~292 years ahead was kept, documentDelayed
+negated a saturated time.Duration - repaired f4c31b8; Finding4: parseESTime let time.Date normalise a
+day beyond the month's end, "2025-02-30 ..." became March 2 - repaired 35992b0).  The spec keeps the
+required behaviour as the reference and models each deviation as a guarded branch recorded in `dev`
+(constants Finding1..4; FALSE = repaired design, which is what the cfgs of the check use for 1, 3, 4;
+BulkIngest_stamp_strict.cfg keeps 3 and 4 TRUE as a vacuity guard: TLC must reject that model); a
+disagreement on a case whose `dev` is not empty gets the finding's signature."""
 import concurrent.futures
 import json
 import os
@@ -118,7 +120,6 @@ def run(ctx):
     files = {k: os.path.join(sc, "bulk-%s.jsonl" % k) for k in ("core", "corep", "time", "sim", "stamp")}
     # the stamp stage: small for TLC (2 400 stamps x 2 document shapes x 6 framings), the same in both tiers
     stamp_jobs = [("stamp", "BulkIngest_stamp.cfg", dict(case_file=files["stamp"], heap="3g", workers=8, timeout=900)),
-                  ("stampfixed", "BulkIngest_stamp_fixed.cfg", dict(heap="3g", workers=4, timeout=900)),
                   ("stampteeth", "BulkIngest_stamp_strict.cfg", dict(heap="2g", workers=2, timeout=900, quiet=True))]
     if quick:
         jobs = [("core", "BulkIngest_core4.cfg", dict(case_file=files["core"], heap="3g", workers=8, timeout=900)),
@@ -152,7 +153,7 @@ def run(ctx):
         ctx.cov["transitions"] -= res[t].generated
     ctx.cov["tlc_runs"] = [t for t in ctx.cov["tlc_runs"] if "_strict" not in t["spec"]]
     ctx.cov["vacuity_guard"] = ("BulkIngest_asis_strict.cfg, BulkIngest_stamp_strict.cfg: ImplMeetsPropertyStrict violated as expected "
-                                "(as-is model with findings enabled)")
+                                "(model with the deviations of Finding2 resp. Finding3+4 enabled)")
     ctx.cov["invariants"] = INVARIANTS
 
     selftest(ctx, drv, files["core"])
